@@ -444,6 +444,96 @@ SCENARIOS.append(Scenario("C09.rules.MaterializeReshapeShape[data shape known]",
                           max_paths=20000))
 
 
+def s_slices_split(ctx):
+    """SlicesSplit: Slice(x, b0, e0, axes), Slice(x, b1, e1, axes) -> Split(x, num_outputs=2, axis=-1) only if, for the static extent d of
+    the last axis, the two slices select exactly the two chunks Split-18 produces for num_outputs=2: [0, ceil(d/2)) and [ceil(d/2), d)
+    (ONNX Split: 'if the tensor is not evenly splittable the last chunk will be smaller'); every operand a non-overridable constant."""
+    import onnx_ir as ir
+    from onnxscript.rewriter.rules.common import _basic_rules as mod
+    from theories import slicing as T
+    I = Interp(ctx)
+    W = World(I)
+    static, rt = choose_shape(ctx, W, "x", max_rank=2, kinds=["int", "N", "unknown"])
+    if static is not None and len(static) == 0:
+        return     # Slice along an axis needs rank >= 1: a rank-0 x is not a valid model
+    x = W.value("x", dims=static, rt=rt, dtype=ir.DataType.FLOAT)
+    vals = {}
+
+    tags = ["begin0", "end0", "begin1", "end1", "axes0", "axes1"]
+    not_const = ([None] + tags)[ctx.choose(7, "one operand is not a constant")]
+    overridable = ([None] + tags)[ctx.choose(7, "one operand is an initializer that is also a graph input")]
+
+    def operand(tag, choices=None):
+        known = tag != not_const
+        items = []
+        if choices is not None:
+            items = list(choices[ctx.choose(len(choices), f"{tag}")])
+        else:
+            t = ctx.int(f"{tag}0")
+            ctx.witness[f"{tag}0"] = t
+            items.append(SInt(t))
+        n = len(items)
+        ovr = known and tag == overridable
+        vals[tag] = (known, items, ovr)
+        v = W.value(tag, dims=[n], rt=[], dtype=ir.DataType.INT64, const=(W.tensor(items, ir.DataType.INT64) if known else None), initializer=known,
+                    graph_input=ovr or not known)
+        from .c05_rules import with_producer
+        with_producer(I, v, None)     # initializers and graph inputs have no producer node
+        return v
+    b0, e0, b1, e1 = operand("begin0"), operand("end0"), operand("begin1"), operand("end1")
+    AX = [[-1], [0], [1], [0, 1]]
+    a0, a1 = operand("axes0", AX), operand("axes1", AX)
+    rule = SObj(mod.SlicesSplit, "rule")
+    args = [x, b0, e0, a0, b1, e1, a1]
+    try:
+        fired = I.truth(I.call(I.getattr(rule, "check"), [None] + args))
+    except PyRaise as e:
+        ctx.note(f"SlicesSplit.check raises {e.exc!r}") if hasattr(ctx, "note") else None
+        ctx.check("C04.rules.SlicesSplit.check_never_raises", False, CL04)
+        return
+    if not fired:
+        ctx.cover("SlicesSplit.check_failed")
+        return
+    ctx.cover("SlicesSplit.fired")
+    ok = all(v[0] for v in vals.values()) and static is not None and len(static) >= 1
+    ctx.check("C05.rules.SlicesSplit.fires_only_for_constant_operands_and_a_known_rank", ok, CL09)
+    ctx.check("C05.rules.SlicesSplit.does_not_fire_on_an_overridable_initializer", not any(v[2] for v in vals.values()),
+              "C05 / C04: 'initializers that are also graph inputs ... are never folded into constants'")
+    if not ok:
+        return
+    rank = len(static)
+    ax0, ax1 = vals["axes0"][1], vals["axes1"][1]
+    okax = len(ax0) == 1 and len(ax1) == 1 and ax0[0] in (-1, rank - 1) and ax1[0] in (-1, rank - 1)
+    ctx.check("C05.rules.SlicesSplit.both_slices_are_along_the_last_axis_only", okax, CL09)
+    last = static[-1]
+    okd = isinstance(last, (int, SInt))
+    ctx.check("C05.rules.SlicesSplit.fires_only_for_a_static_last_extent", okd, CL09)
+    if not (okax and okd):
+        return
+    d = rt[-1]
+    tb0, te0, tb1, te1 = (term(vals[k][1][0]) for k in ("begin0", "end0", "begin1", "end1"))
+    s0, f0 = T.onnx_norm(d, tb0, te0, z3.IntVal(1))
+    s1, f1 = T.onnx_norm(d, tb1, te1, z3.IntVal(1))
+    half = (d + 1) / 2     # ceil(d / 2) for d >= 0 (z3 integer division)
+
+    def same_range(a1_, b1_, a2_, b2_):
+        return z3.Or(z3.And(a1_ >= b1_, a2_ >= b2_), z3.And(a1_ < b1_, a2_ < b2_, a1_ == a2_, b1_ == b2_))
+    clause = "C05: 'the rewritten model yields the same outputs' - ONNX Slice clamping vs Split-18 with num_outputs (equal chunks, the last one smaller)"
+    ctx.check("C05.rules.SlicesSplit.first_slice_is_the_first_chunk_of_split", same_range(s0, f0, z3.IntVal(0), half), clause)
+    ctx.check("C05.rules.SlicesSplit.second_slice_is_the_second_chunk_of_split", same_range(s1, f1, half, d), clause)
+    r = I.call(I.getattr(rule, "rewrite"), [OpRecorder()] + args)
+    okr = isinstance(r, tuple) and len(r) == 2 and all(o.call is r[0].call and o.index == i for i, o in enumerate(r)) and r[0].call.op == "Split" \
+        and r[0].call.args[0] is x and all(a is None for a in r[0].call.args[1:]) and r[0].call.kwargs.get("num_outputs") == 2 \
+        and r[0].call.kwargs.get("axis") in (-1, rank - 1)
+    ctx.check("C05.rules.SlicesSplit.replacement_is_split_of_x_into_two_along_the_last_axis_outputs_in_order", okr, CL09)
+
+
+SCENARIOS.append(Scenario("C05.rules.SlicesSplit", s_slices_split,
+                          [("onnxscript/rewriter/rules/common/_basic_rules.py", "SlicesSplit.check"), ("onnxscript/rewriter/rules/common/_basic_rules.py", "SlicesSplit.rewrite")],
+                          kind="bounded", bound="x of rank <= 2; each dim static int (symbolic) / named / unknown; begin / end values unbounded; axes [-1] / [0] / [1] / [0,1]; at most one operand not constant and at most one overridable",
+                          trusted=TRUST + ["ONNX Slice-13 clamping; Split-18 with num_outputs: chunks of ceil(d/n), the last one smaller"], max_paths=60000))
+
+
 def s_collapse_slice(ctx):
     """_collapse_slices._check_if_redundant_slice: Slice(data, starts, ends, axes, steps) -> Identity(data) only if the
     slice selects the whole axis for every binding: single axis, step 1, start 0, and end >= the (static) extent or
